@@ -70,6 +70,11 @@ Real processes (thorough tier only, to validate the simulator itself):
     same event tuples as the simulator from the real torch.distributed calls.
 
 ``silence_library_logging()`` turns off the loggers of distributed_shampoo / matrix_functions.
+
+Checked beyond DDP (C06): HybridShardDistributor on a 2x2 mesh built with ``ctx.cluster.make_mesh("cpu", ((0, 1), (2, 3)),
+("replicate", "shard"))`` and ``patch_to_local=True`` (parameters = the local shards as plain tensors) runs unchanged:
+replicas agree, each shard column equals the serial optimizer on its local shards, all ranks log the same creations.
+The API above is used by C06, C07 and C08 - extend it additively only.
 """
 from __future__ import annotations
 
